@@ -41,7 +41,7 @@ class SelectLoop : public CommonLoop {
 
   public:
     SelectFdSharedData* refFdSharedData(int fd);
-    SelectFdSharedData* findFdSharedData(int fd) const; //!< nullptr if there is none
+    SelectFdSharedData* findFdSharedData(int fd) const;  //!< 供事件分发使用，没有或是本轮等待返回之后才创建的则返回nullptr
     void unrefFdSharedData(int fd);
 
   protected:
@@ -54,6 +54,9 @@ class SelectLoop : public CommonLoop {
 
     std::unordered_map<int, SelectFdSharedData*> fd_data_map_;
     ObjectPool<SelectFdSharedData> fd_shared_data_pool_{64};
+
+    uint64_t fd_data_serial_ = 0;   //!< 最近创建的共享数据的序号
+    uint64_t wait_serial_ = 0;      //!< 本轮等待返回时的 fd_data_serial_
 };
 
 }
